@@ -4,6 +4,8 @@ root="$1"; off="$2"; p="$3"
 for n in 1 2; do
   t=$((n+off))
   echo "=== $p seed $n of $root -> $p-$t"
+  # keep the artefacts first: the scratch worktree may disappear before the checks have finished
+  mkdir -p /verif/seeded/$p-$t && cp ${root}_$p/out/$n/patch.diff ${root}_$p/out/$n/demo.py ${root}_$p/out/$n/meta.json /verif/seeded/$p-$t/ 2>/dev/null
   /verif/tools/seedverify.sh ${root}_$p/out/$n 2>&1 | tr '\n' ' '; echo
   SEEDROOT=$root SEEDTAG=$t /verif/tools/seedrun.sh $p $n $p | grep -v "^exit"
   SEEDROOT=$root SEEDTAG=$t /verif/tools/seedkeep.py $p $n
